@@ -50,7 +50,7 @@ theorem leaves_sub {i : Nat} (hi : i < C.kinds.length) : ∀ c, c ∈ (C.kinds.g
 
 /-- a tagged assign is justified by every valuation at which the combinational leaves sit at their fixpoint -/
 theorem just_of_tag (a : LHS × Expr) (t : Tag) (h : C.tagOkb a t = true) (V : Nat → Nat) (hfix : CombFix C.netD V)
-    (hV : ∀ k, V k < 2 ^ C.wd k) : Just C.net C.wd V a := by
+    (hV : ∀ k, V k < 2 ^ C.wd k) (hg : C.netD.good V) : Just C.net C.wd V a := by
   cases t with
   | kind i j nu =>
     simp only [tagOkb, Bool.and_eq_true, decide_eq_true_eq, List.all_eq_true, beq_iff_eq] at h
@@ -71,6 +71,7 @@ theorem just_of_tag (a : LHS × Expr) (t : Tag) (h : C.tagOkb a t = true) (V : N
       · apply gkind_just C.wd _ _ hok V _ j a o hassign ho r
         · intro x hx
           exact hK _ x (gkind_reads_sup C.wd _ _ hok j a hassign x hx) (hins x hx)
+        · exact hg _ (FlatDesign.getD_mem C.kinds i hi)
         · intro c hc of hof
           exact hfix c (C.leaves_sub hi c hc) of hof
   | alias =>
@@ -211,9 +212,9 @@ theorem OK.seqCorr (h : C.OK) : SeqCorr C.netD C.flat C.topo C.regs C.net := by
     intro i hi
     exact h.operm.mem_iff.mpr (List.mem_range.mpr hi)
   refine ⟨⟨h.perm_topo, h.vacyc, ?_, ?_⟩, hsched, rfl, rfl, ?_, ?_, ?_, ?_, ?_, ?_, h.q_nodup, ?_⟩
-  · intro V hfix hV a ha
+  · intro V hfix hV hg a ha
     obtain ⟨t, ht⟩ := zip_of_mem C.assigns C.tags h.tags_len a ha
-    exact C.just_of_tag a t (h.tags_ok (a, t) ht) V hfix hV
+    exact C.just_of_tag a t (h.tags_ok (a, t) ht) V hfix hV hg
   · intro n k hn hu c hc o ho e
     rcases h.undriven (n, k) (C.net_mem hn) with h1 | h1
     · exact hu h1
